@@ -215,6 +215,40 @@ func helperGroup(f *ssa.Function, depth int) []*ssa.Function {
 					next = append(next, a)
 				}
 			}
+			// a method or function of the package used as a value (`withFile(path, l.loadList)`): the bound
+			// method wrapper stands for the method itself
+			for _, b := range g.Blocks {
+				for _, in := range b.Instrs {
+					for _, op := range in.Operands(nil) {
+						var fv *ssa.Function
+						switch v := (*op).(type) {
+						case *ssa.MakeClosure:
+							fv, _ = v.Fn.(*ssa.Function)
+						case *ssa.Function:
+							if c, isCall := in.(ssa.CallInstruction); isCall && c.Common().Value == ssa.Value(v) {
+								continue // a plain static call, handled above
+							}
+							fv = v
+						}
+						if fv == nil || fv.Parent() != nil {
+							continue
+						}
+						if fv.Synthetic != "" && len(fv.Blocks) == 1 { // bound method wrapper / thunk
+							for _, c := range an.Calls(fv) {
+								if sc := an.StaticCallee(c); sc != nil {
+									fv = sc
+								}
+							}
+						}
+						if seen[fv] || fv.Blocks == nil || !(an.FuncPkgPath(fv) == an.FuncPkgPath(f) || inSharedHelperPackage(fv)) {
+							continue
+						}
+						seen[fv] = true
+						out = append(out, fv)
+						next = append(next, fv)
+					}
+				}
+			}
 		}
 		frontier = next
 	}
@@ -924,4 +958,21 @@ func liftStructOf(f *ssa.Function, v ssa.Value) ssa.Value {
 		base = fieldOfIn(f, base, idx, 0)
 	}
 	return base
+}
+
+// membershipValues returns the boolean(s) that say "the key is in the map" for
+// a map lookup: the value itself for a map[K]bool read without comma-ok, the
+// second result for a comma-ok lookup (set as map[K]struct{} or any map).
+func membershipValues(lk *ssa.Lookup) []ssa.Value {
+	if !lk.CommaOk {
+		if b, ok := lk.Type().Underlying().(*types.Basic); ok && b.Kind() == types.Bool {
+			return []ssa.Value{lk}
+		}
+		return nil
+	}
+	var out []ssa.Value
+	for _, ex := range an.ExtractOf(lk, 1) {
+		out = append(out, ex)
+	}
+	return out
 }
